@@ -1291,3 +1291,88 @@ harness! {
         cov!(s, shape == 3, "C15.cover.destructure_zst_last");
     }
 }
+
+// ---------------------------------------------------------------------------
+// Debug impls: formatting visits exactly the live elements (a slot that was taken or never pushed must not be read)
+
+/// element whose `Debug` impl only records its id
+pub struct Dz(pub u8);
+static mut SEEN: [u8; 8] = [0; 8];
+static mut SEEN_N: usize = 0;
+impl core::fmt::Debug for Dz {
+    fn fmt(&self, _f: &mut core::fmt::Formatter<'_>) -> core::fmt::Result {
+        unsafe {
+            let n = *addr_of_mut!(SEEN_N);
+            if n < 8 {
+                (*addr_of_mut!(SEEN))[n] = self.0;
+            }
+            *addr_of_mut!(SEEN_N) = n + 1;
+        }
+        Ok(())
+    }
+}
+struct NullW;
+impl core::fmt::Write for NullW {
+    fn write_str(&mut self, _s: &str) -> core::fmt::Result {
+        Ok(())
+    }
+}
+fn seen_reset() {
+    unsafe {
+        *addr_of_mut!(SEEN_N) = 0;
+        *addr_of_mut!(SEEN) = [0; 8];
+    }
+}
+fn seen_is(ids: &[u8; 3], lo: usize, hi: usize) -> bool {
+    unsafe {
+        let n = *addr_of_mut!(SEEN_N);
+        let mut ok = n == hi - lo;
+        let mut j = 0;
+        while j < 3 {
+            if lo + j < hi && j < 8 && (*addr_of_mut!(SEEN))[j] != ids[lo + j] {
+                ok = false;
+            }
+            j += 1;
+        }
+        ok
+    }
+}
+
+harness! {
+    /// kind=bounded tier=quick bound="N = 3: `{:?}` of an ArrayConsumer after f front and b back takes (f+b <= 3), of its clone, and of an ArrayBuilder after k <= 3 pushes, with an element type whose Debug impl records which elements it is shown: exactly the live elements, in order"
+    #[kani::unwind(8)]
+    fn c15_debug_visits_exactly_the_live_elements(s) {
+        use core::fmt::Write;
+        let ids = [s.u8(), s.u8(), s.u8()];
+        let f = s.upto(3);
+        let b = s.upto(3 - f);
+        let mut c = ArrayConsumer::new([Dz(ids[0]), Dz(ids[1]), Dz(ids[2])]);
+        let mut j = 0;
+        while j < 3 {
+            if j < f {
+                let _ = c.next();
+            } else if j < f + b {
+                let _ = c.next_back();
+            }
+            j += 1;
+        }
+        seen_reset();
+        let _ = write!(NullW, "{:?}", c);
+        chk!(s, seen_is(&ids, f, 3 - b), "C15.consumer.debug_visits_exactly_the_remaining_elements");
+        cov!(s, f == 1 && b == 1, "C15.cover.debug_consumer_taken_from_both_ends");
+        let k = s.upto(3);
+        let mut bd = ArrayBuilder::<Dz, 3>::new();
+        let mut j = 0;
+        while j < 3 {
+            if j < k {
+                bd.push(Dz(ids[j]));
+            }
+            j += 1;
+        }
+        seen_reset();
+        let _ = write!(NullW, "{:?}", bd);
+        chk!(s, seen_is(&ids, 0, k), "C15.builder.debug_visits_exactly_the_pushed_elements");
+        core::mem::forget(c);
+        core::mem::forget(bd);
+    }
+}
